@@ -634,8 +634,8 @@ func (cs *ConsensusState) addVote(vote *types.Vote, peerID p2p.ID) (bool, error)
 	// A precommit for the previous height?
 	// These come in while we wait timeoutCommit
 	if vote.Height+1 == cs.Height && vote.Type == kproto.PrecommitType {
-		if cs.Step != cstypes.RoundStepNewHeight {
-			// Late precommit at prior height is ignored
+		if cs.Step != cstypes.RoundStepNewHeight || cs.LastCommit == nil {
+			// Late precommit at prior height is ignored (there is no prior height at the initial one)
 			cs.Logger.Debug("Precommit vote came in after commit timeout and has been ignored", "vote", vote)
 			return false, nil
 		}
